@@ -115,7 +115,14 @@ def run_case(case):
                     args = [[v, [[py_val(p[0], tS, False), py_val(p[1], S, ev.get("flt", False))] for p in ev["w"][v]]] for v in order]
                     for v in sorted(ev.get("extra", {})):
                         args.append([v, [list(p) for p in ev["extra"][v]]])
-                    keep = copy.deepcopy(args)
+                    if ev.get("share"):
+                        if ev["share"] not in shared:
+                            shared[ev["share"]] = args
+                            pristine[ev["share"]] = copy.deepcopy(args)
+                        args = shared[ev["share"]]
+                        keep = pristine[ev["share"]]
+                    else:
+                        keep = copy.deepcopy(args)
                     ev["ret"] = []; ev["same"] = True
                     r = spec.update(*args) if a == "update" else spec.evaluate(*args)
                     ev["ret"] = [[enc(p[0], 2 * tS), enc(p[1], S)] for p in r]
